@@ -23,7 +23,7 @@ for _p in __import__("sys").path:
         break
 
 BEHAVIOURS = ["plain-ok", "upload-digest", "uds-ok", "uds-refuse", "via-http-proxy-tls-ok", "via-https-proxy-tls-ok",
-              "via-socks-tls-ok", "bad-socket-option", "uds-bad-socket-option", "refuse", "accept-close", "accept-rst", "stall", "partial-then-close", "close-during-upload",
+              "via-socks-tls-ok", "bad-socket-option", "uds-bad-socket-option", "badtype-socket-option", "refuse", "accept-close", "accept-rst", "stall", "partial-then-close", "close-during-upload",
               "tls-ok", "tls-garbage", "tls-untrusted", "tls-close-in-handshake", "tls-eof-in-handshake", "tls-stall-timeout",
               "tls-stall-cancel"]
 
@@ -56,7 +56,7 @@ class Server:
             return
         if behaviour.startswith("via-"):
             behaviour = "tls-ok"
-        if behaviour == "bad-socket-option":
+        if behaviour in ("bad-socket-option", "badtype-socket-option"):
             behaviour = "plain-ok"
         self.behaviour = behaviour
         self.sock = socket.socket(socket.AF_INET, socket.SOCK_STREAM)
@@ -257,6 +257,7 @@ EXPECT = {
     "uds-refuse": (httpcore.ConnectError,),
     "bad-socket-option": (httpcore.ConnectError,),
     "uds-bad-socket-option": (httpcore.ConnectError,),
+    "badtype-socket-option": "caller-error",   # (a TypeError / OverflowError of setsockopt itself: only the fd ledger judges)
     "via-http-proxy-tls-ok": None,
     "via-https-proxy-tls-ok": None,
     "via-socks-tls-ok": None,
@@ -288,6 +289,9 @@ def run_one(backend: str, behaviour: str):
     if behaviour.endswith("bad-socket-option"):
         # the connection is made, then setting the caller's (invalid) socket option fails
         pool_kw["socket_options"] = [(socket.SOL_SOCKET, 0x7FFF, 1)]
+    if behaviour == "badtype-socket-option":
+        # ... or is rejected by setsockopt() itself, before the kernel sees it (not an OSError)
+        pool_kw["socket_options"] = [(socket.SOL_SOCKET, socket.SO_SNDBUF, 2 ** 40)]
     if behaviour.startswith("via-"):
         kind = behaviour.split("-")[1]
         relay = _Relay("socks" if kind == "socks" else "http", tls=kind == "https")
